@@ -310,13 +310,13 @@ def judge(P, tol=None, record=False):
     if tol is None:
         tol = 1e-6 if is_root_based(P) else 1e-9
     vi, vd = {}, {}
-    trace, obs, dshape = [], {}, {}
+    trace, obs, dshape, kinds = [], {}, {}, {}
     last = None
     for n in nodes(P):
         try:
             lv_i, lv_d = _leafval(n, False), _leafval(n, True)
         except Exception as ex:
-            return {"status": "build-error", "node": n, "info": {"what": exc_text(ex)}, "trace": trace, "obs": obs, "dshape": dshape}
+            return {"status": "build-error", "node": n, "info": {"what": exc_text(ex)}, "trace": trace, "obs": obs, "dshape": dshape, "kinds": kinds}
         if lv_i is not None:
             vi[id(n)], vd[id(n)] = lv_i, lv_d
             dshape[id(n)] = _shape_of(lv_d)
@@ -332,6 +332,7 @@ def judge(P, tol=None, record=False):
             info["b_kind"] = operand_kind(b, vi[id(b)])
             sb = _shape_of(vd[id(b)])
             info["bcast"] = bool(len(sa) >= 2 and len(sb) >= 2 and tuple(sa[:-2]) != tuple(sb[:-2]))
+        kinds[id(n)] = {"a": info.get("a_kind"), "b": info.get("b_kind"), "bcast": info.get("bcast"), "nbatch": info.get("a_nbatch")}
         if st == "ok":
             obs[id(n)] = ("ok", info.get("got"))
         elif st == "fail":
@@ -349,7 +350,7 @@ def judge(P, tol=None, record=False):
         if exp is not None:
             dshape[id(n)] = _shape_of(exp)
         if st != "ok":
-            return {"status": st, "node": n, "info": info, "trace": trace, "obs": obs, "dshape": dshape}
+            return {"status": st, "node": n, "info": info, "trace": trace, "obs": obs, "dshape": dshape, "kinds": kinds}
         vi[id(n)], vd[id(n)] = r, exp
         last = (n, info)
-    return {"status": "ok", "node": P, "info": last[1] if last else {}, "trace": trace, "obs": obs, "dshape": dshape}
+    return {"status": "ok", "node": P, "info": last[1] if last else {}, "trace": trace, "obs": obs, "dshape": dshape, "kinds": kinds}
